@@ -254,6 +254,8 @@ class MotionMonitor(Monitor):
         return s
 
     exhaustive = None       # (quick maxlen, thorough maxlen): enumerate the retraction automaton's event sequences completely
+    exhaustive_what = ("every event sequence over {retract, recover, print inside/outside, travel inside/outside} with matched "
+                       "cycles up to the length bound (quick 5, thorough 7-8), E-only and firmware retraction, one region")
 
     def gen_case(self, rnd, tier, k):
         if self.exhaustive and k % 2 == 0:
